@@ -1267,7 +1267,13 @@ func (g *Gen) text() string {
 
 // plantError damages a program text so that fc must reject it (reject profile).
 func plantError(r *common.Rng, src string) (string, string) {
-	switch r.Intn(5) {
+	switch r.Intn(8) {
+	case 5:
+		return src + "\npackage_info _ =\n  let ZzExt: int->\n", "bad-package-info"
+	case 6:
+		return src + "\nlet zzBad () =\n  99999999999999999999999999999\n", "huge-number"
+	case 7:
+		return src + "\nlet zzBad () =\n  \"unterminated", "unterminated-string-at-eof"
 	case 0:
 		return src + "\nlet zzBad () =\n  undefinedName 1\n", "unknown-name"
 	case 1:
